@@ -60,13 +60,24 @@ def literals(res):
         add("'a\\u%04xb'" % v)
         add("b'\\u%04x'" % v)
         add("r'\\u%04x'" % v)
-    for v in [0, 0x41, 0xffff, 0x10000, 0x1f600, 0x10ffff, 0x110000, 0xd800, 0xdfff, 0xe0001, 0xfffff, 0x100000] + [rng.randrange(0x110000) for _ in range(3000 if thorough else 300)]:
+    for v in [0, 0x41, 0xffff, 0x10000, 0x1f600, 0x10ffff, 0x110000, 0xd800, 0xdfff, 0xe0001, 0xfffff, 0x100000] + [rng.randrange(0x110000) for _ in range(30000 if thorough else 300)]:
         add("'\\U%08x'" % v)
         add("b'\\U%08x'" % v)
+    if thorough:
+        for v in range(0, 0x110000):
+            add("'\\U%08x'" % v)
+    else:
+        # every plane start/end, the 16-bit patterns that look like surrogates in every plane, power-of-two neighbours
+        for plane in range(0, 17):
+            for lo in (0, 1, 0xd7ff, 0xd800, 0xdbff, 0xdc00, 0xdfff, 0xe000, 0xfffe, 0xffff):
+                add("'\\U%08x'" % (plane * 0x10000 + lo))
+        for k in range(0, 21):
+            for d in (-1, 0, 1):
+                add("'\\U%08x'" % max(0, 2 ** k + d))
     add("'\\U0001F60'")
     add("'\\u123'")
     # \N{name}
-    cps = [0x41, 0xe9, 0x2022, 0x3042, 0x1f600, 0x20ac, 0x5d0, 0x10ffff, 0x0, 0x7f, 0xa0] + [rng.randrange(0x30000) for _ in range(6000 if thorough else 2500)]
+    cps = [0x41, 0xe9, 0x2022, 0x3042, 0x1f600, 0x20ac, 0x5d0, 0x10ffff, 0x0, 0x7f, 0xa0] + [rng.randrange(0x30000) for _ in range(60000 if thorough else 2500)]
     for cp in cps:
         try:
             nm = unicodedata.name(chr(cp))
@@ -104,7 +115,7 @@ def literals(res):
     pool_t = ["'a'", '"b"', "'''c'''", "r'\\n'", "u'd'", "U'e'", "'\\x41'", "'é'", "''", "'\\ud800'", "f'{x}'", "f'q'", "rf'\\d{y}'", "'\\N{BULLET}'"]
     pool_b = ["b'a'", 'B"b"', "rb'\\n'", "b'\\x00\\xff'", "b''", "bR'''c'''"]
     for n in (2, 3, 4):
-        for _ in range(1500 if thorough else 700):
+        for _ in range(15000 if thorough else 700):
             add(" ".join(rng.choice(pool_t) for _ in range(n)))
             add(rng.choice([" ", "  ", "\t"]).join(rng.choice(pool_b) for _ in range(n)))
     add("'a' b'b'")
@@ -167,7 +178,7 @@ def literals(res):
         add(str(v) + "J")
         add(str(v) + ".0")
         add(str(v) + "e0j")
-    for _ in range(30000 if thorough else 12000):
+    for _ in range(400000 if thorough else 12000):
         b = rng.getrandbits(64)
         f = struct.unpack("<d", struct.pack("<Q", b))[0]
         if f == f and abs(f) != float("inf"):
@@ -177,7 +188,7 @@ def literals(res):
                 # same value with more digits / halfway perturbations
                 add(("%.30e" % abs(f)))
                 add(("%.17g" % abs(f)))
-    for _ in range(6000 if thorough else 3000):
+    for _ in range(100000 if thorough else 3000):
         m = "".join(rng.choice("0123456789") for _ in range(rng.randint(1, 25)))
         i = rng.randint(0, len(m))
         add(m[:i] + "." + m[i:] + rng.choice(["", "e%d" % rng.randint(-340, 310), "E+%d" % rng.randint(0, 30), "j"]))
